@@ -118,3 +118,95 @@ func c07R3ErrChecked(env *c06Env) {
 			"the loop goes on to the next section (from "+strings.Join(bad, ", ")+") while the builder's error may be non-nil: a builder that failed has emitted no m-section, so the offered section is dropped instead of rejected in place")
 	}
 }
+
+// c07R5: "each answer section has the same media type as its offer section". The answer's media name is the kind of the
+// transceiver bound to the offered mid (C07.R4 / C12.R4), so the association step must only hand out transceivers of
+// the offered kind: in satisfyTypeAndDirection every return of a non-nil transceiver is dominated by a branch that
+// establishes `<that transceiver>.kind == <remote kind parameter>`.
+func c07R5(c *Ctx) {
+	r := c.R
+	const rule = "C07.R5"
+	fi := c.mustFunc(rule, "", "satisfyTypeAndDirection")
+	kindF := c.mustField(rule, "", "RTPTransceiver", "kind")
+	if fi == nil || kindF == nil {
+		return
+	}
+	g := c.P.GraphOf(fi)
+	info := g.Info
+	sig := fi.Obj.Type().(*types.Signature)
+	var remoteKind *types.Var
+	for i := 0; i < sig.Params().Len(); i++ {
+		if types.Identical(sig.Params().At(i).Type(), kindF.Type()) {
+			remoteKind = sig.Params().At(i)
+		}
+	}
+	if remoteKind == nil {
+		r.Undecided(rule, "satisfyTypeAndDirection|kind-parameter", c.P.Pos(fi.Decl.Pos()), "no parameter of the transceiver kind's type")
+		return
+	}
+	n := 0
+	for _, rn := range g.Returns() {
+		ret := g.Nodes[rn].Ast.(*ast.ReturnStmt)
+		if len(ret.Results) == 0 || core.IsNilIdent(info, ret.Results[0]) {
+			continue
+		}
+		tv := core.VarOf(info, ret.Results[0])
+		n++
+		key := sprintf("satisfyTypeAndDirection|return#%d|same-kind-as-offered-section", n)
+		if tv == nil {
+			r.Undecided(rule, key, c.P.Pos(ret.Pos()), "the returned transceiver is not a plain variable")
+			continue
+		}
+		var establishes func(e ast.Expr, truth bool) bool
+		establishes = func(e ast.Expr, truth bool) bool {
+			switch v := ast.Unparen(e).(type) {
+			case *ast.UnaryExpr:
+				if v.Op == token.NOT {
+					return establishes(v.X, !truth)
+				}
+			case *ast.BinaryExpr:
+				if v.Op == token.LAND && truth || v.Op == token.LOR && !truth {
+					return establishes(v.X, truth) || establishes(v.Y, truth)
+				}
+				if (v.Op == token.EQL || v.Op == token.NEQ) && truth == (v.Op == token.EQL) {
+					isKind := func(x ast.Expr) bool {
+						sel, ok := ast.Unparen(x).(*ast.SelectorExpr)
+						return ok && core.FieldOf(info, sel) == kindF && core.VarOf(info, sel.X) == tv
+					}
+					isRemote := func(x ast.Expr) bool { return core.VarOf(info, x) == remoteKind }
+					return isKind(v.X) && isRemote(v.Y) || isKind(v.Y) && isRemote(v.X)
+				}
+			}
+			return false
+		}
+		edges := map[core.EdgeRef]bool{}
+		for _, nd := range g.Nodes {
+			for k, e := range nd.Succs {
+				if e.Cond != nil && e.Tag == nil && e.Branch != 0 && establishes(e.Cond, e.Branch == 1) {
+					edges[core.EdgeRef{From: nd.ID, Idx: k}] = true
+				}
+			}
+		}
+		// the kind test must concern the value returned: no re-assignment of the variable between the test and the return
+		ok := len(edges) > 0 && g.DominatedByEdges(rn, edges)
+		if ok {
+			var tos []int
+			for ed := range edges {
+				tos = append(tos, g.Nodes[ed.From].Succs[ed.Idx].To)
+			}
+			for x := range g.Reach(tos, func(y int) bool { return y == rn }, nil) {
+				for _, t := range core.AssignTargets(g.Nodes[x].Ast) {
+					if core.VarOf(info, t) == tv && x != rn {
+						ok = false
+					}
+				}
+			}
+		}
+		r.Cells++
+		r.Check(ok, rule, key, c.P.Pos(ret.Pos()), "the transceiver handed out has the offered section's kind",
+			"satisfyTypeAndDirection can hand out a transceiver without having tested that its kind equals the offered section's: SetRemoteDescription gives it the section's mid and the answer renders m=<transceiver kind> for an offered section of another media type")
+	}
+	if n == 0 {
+		r.Undecided(rule, "satisfyTypeAndDirection|returns", c.P.Pos(fi.Decl.Pos()), "no return of a transceiver found")
+	}
+}
